@@ -167,6 +167,23 @@ func runLimits(seed uint64, cas int, tier string) *LimRes {
 	s.srv.WaitIdle()
 	s.fullCheck("dump", "after the write-size cases")
 
+	// ---- CREATE with an initial size -----------------------------------------
+	for i, sz := range []uint64{100, lim.MaxFileSize - 1, lim.MaxFileSize, lim.MaxFileSize + 1, lim.MaxFileSize + 4096, 1 << 40, 1 << 63, ^uint64(0)} {
+		name := fmt.Sprintf("crsz%d", i)
+		cr := s.exec(&Op{K: OpCreate, H: srv.Root, Name: name, Mode: i % 2, SetSize: true, Size: sz})
+		note("maxfilesize", clampDelta(sz, lim.MaxFileSize), "CREATE(size)", cr.Stat == stOK)
+		if cr.Stat == stOK {
+			ga := s.exec(&Op{K: OpGetattr, H: cr.FH})
+			if ga.Stat == stOK && ga.Size > lim.MaxFileSize {
+				viol("CREATE with initial size %d leaves a file of %d bytes although maxfilesize is %d", sz, ga.Size, lim.MaxFileSize)
+			}
+			s.exec(&Op{K: OpRead, H: cr.FH, Off: 0, Count: 4096})
+			if ga.Size > 0 {
+				s.exec(&Op{K: OpRead, H: cr.FH, Off: ga.Size - 1, Count: 4096})
+			}
+			s.exec(&Op{K: OpRemove, H: srv.Root, Name: name})
+		}
+	}
 	// ---- many names of the maximum length in one directory -----------------
 	// (an entry of a long name needs more reply bytes than directory bytes:
 	// anything that sizes a scan of the directory by its length stops early)
